@@ -156,7 +156,9 @@ def _read_json(rml_rule, references):
     # add columns with null values for those references in the mapping rule that are not present in the data file
     missing_references_in_df = list(set(references).difference(set(json_df.columns)))
     json_df[missing_references_in_df] = None
-    json_df.dropna(axis=0, how='any', inplace=True)
+    # only a NULL in a column referenced by the rule suppresses the record (sibling keys of a nested object are
+    # retrieved too, they must not take part)
+    json_df.dropna(axis=0, how='any', subset=references, inplace=True)
 
     return json_df
 
